@@ -182,6 +182,113 @@ func run(repo string) (string, error) {
 		return "", fmt.Errorf("handShake / utils.MergeErrors no longer have the expected shape")
 	}
 
+	// ---- C16: the checks on the receiving pipeline
+	dec := ex.FuncDecl(cf, "", "decodeBytes")
+	dpipe := ex.FuncDecl(cf, "client", "decodePipe")
+	cpipe := ex.FuncDecl(cf, "client", "decryptPipe")
+	if dec == nil || dpipe == nil || cpipe == nil {
+		return "", fmt.Errorf("decodeBytes / decodePipe / decryptPipe not found")
+	}
+	// an `if` whose init or condition contains `call` and whose body leaves (return / continue)
+	guardLeaves := func(fn *ast.FuncDecl, call string, needReport bool) bool {
+		found := false
+		walk(fn, func(n ast.Node, st []ast.Node) {
+			is, ok := n.(*ast.IfStmt)
+			if !ok {
+				return
+			}
+			head := txt(is.Cond)
+			if is.Init != nil {
+				head = txt(is.Init) + "; " + head
+			}
+			if !strings.Contains(head, call) || !strings.Contains(head, "err != nil") {
+				return
+			}
+			leaves, reports := false, false
+			for _, b := range is.Body.List {
+				switch x := b.(type) {
+				case *ast.ReturnStmt:
+					leaves = true
+				case *ast.BranchStmt:
+					if x.Tok == token.CONTINUE {
+						leaves = true
+					}
+				case *ast.ExprStmt:
+					if strings.HasPrefix(txt(x), "c.reportError(") {
+						reports = true
+					}
+				}
+			}
+			if leaves && (reports || !needReport) {
+				found = true
+			}
+		})
+		return found
+	}
+	checksAny := false
+	walk(dec, func(n ast.Node, st []ast.Node) {
+		if is, ok := n.(*ast.IfStmt); ok && txt(is.Cond) == "pa.GetAnything() == nil" {
+			for _, b := range is.Body.List {
+				if _, ok := b.(*ast.ReturnStmt); ok {
+					checksAny = true
+				}
+			}
+		}
+	})
+	// the nil check must come before the first use of pa.GetAnything().Value
+	if checksAny {
+		var chk, use token.Pos
+		walk(dec, func(n ast.Node, st []ast.Node) {
+			if is, ok := n.(*ast.IfStmt); ok && txt(is.Cond) == "pa.GetAnything() == nil" && chk == 0 {
+				chk = is.Pos()
+			}
+			if se, ok := n.(*ast.SelectorExpr); ok && txt(se) == "pa.GetAnything().Value" && use == 0 {
+				use = se.Pos()
+			}
+		})
+		checksAny = use == 0 || chk < use
+	}
+	decVerifies := guardLeaves(dec, "veifyfn(pa.GetAnything().Value, pa.GetSignature())", false)
+	pipePassesVerify := false
+	walk(dpipe, func(n ast.Node, st []ast.Node) {
+		if c, ok := n.(*ast.CallExpr); ok && txt(c) == "decodeBytes(bytes, c.verifyFn)" {
+			pipePassesVerify = true
+		}
+	})
+	pipeDecodeErr := false
+	walk(dpipe, func(n ast.Node, st []ast.Node) { // `pa, ptr, err := decodeBytes(…)` followed by `if err != nil { report; continue }`
+		bs, ok := n.(*ast.BlockStmt)
+		if !ok {
+			return
+		}
+		for i, stt := range bs.List {
+			if a, ok := stt.(*ast.AssignStmt); ok && strings.Contains(txt(a), "decodeBytes(bytes, c.verifyFn)") && i+1 < len(bs.List) {
+				if is, ok := bs.List[i+1].(*ast.IfStmt); ok && txt(is.Cond) == "err != nil" {
+					rep, cont := false, false
+					for _, b := range is.Body.List {
+						if strings.HasPrefix(txt(b), "c.reportError(") {
+							rep = true
+						}
+						if br, ok := b.(*ast.BranchStmt); ok && br.Tok == token.CONTINUE {
+							cont = true
+						}
+					}
+					pipeDecodeErr = rep && cont
+				}
+			}
+		}
+	})
+	pipeVerifies := guardLeaves(dpipe, "bls.Verify(c.suite, c.remotePubKey, pa.GetAnything().Value, pa.GetSignature())", true)
+	openChecked := guardLeaves(cpipe, "aesgcm.Open(nil, c.dhNonce, text, nil)", true)
+	verifyFnUsesRemoteKey := false
+	if vf := ex.FuncDecl(cf, "client", "verifyFn"); vf != nil {
+		walk(vf, func(n ast.Node, st []ast.Node) {
+			if c, ok := n.(*ast.CallExpr); ok && txt(c) == "bls.Verify(c.suite, c.remotePubKey, msg, sig)" {
+				verifyFnUsesRemoteKey = true
+			}
+		})
+	}
+
 	s := ex.Header("P2PFlow", "p2p/client.go, p2p/server.go, utils/utils.go")
 	s += "namespace Dos.Gen\n"
 	s += "/-- every write `requests[…] = …` in dispatch is `requests[nonce] = &req` under `if req.rType != replyReq` -/\n"
@@ -196,6 +303,14 @@ func run(repo string) (string, error) {
 	s += fmt.Sprintf("def handshakeDeadline : Bool := %s\n", lb(dlPos != 0 && dlPos < hsPos))
 	s += "/-- the merge of the handshake's error channels (utils.MergeErrors) releases its WaitGroup on every exit of a forwarder -/\n"
 	s += fmt.Sprintf("def mergeErrorsReleases : Bool := %s\n", lb(releases))
+	s += "/-- decodeBytes returns an error for a Package without Anything before it dereferences it -/\n"
+	s += fmt.Sprintf("def decodeChecksAnything : Bool := %s\n", lb(checksAny))
+	s += "/-- decryptPipe: a failing aesgcm.Open is reported and the frame dropped (`continue`) -/\n"
+	s += fmt.Sprintf("def decryptDropsOnOpenError : Bool := %s\n", lb(openChecked))
+	s += "/-- decodePipe calls decodeBytes with c.verifyFn (BLS under the handshake key) and drops the frame on its error; decodeBytes returns on a verify error -/\n"
+	s += fmt.Sprintf("def decodeVerifiesFirst : Bool := %s\n", lb(decVerifies && pipePassesVerify && pipeDecodeErr && verifyFnUsesRemoteKey))
+	s += "/-- decodePipe verifies the payload signature under c.remotePubKey again and drops the frame on failure -/\n"
+	s += fmt.Sprintf("def decodePipeVerifiesAgain : Bool := %s\n", lb(pipeVerifies))
 	s += "end Dos.Gen\n"
 	return s, nil
 }
